@@ -255,12 +255,60 @@ def binop_role(f, ei, st):
     return "lhs-unknown"
 
 
+def wrapper_fns(prog, cf):
+    """ctx-free wrappers: functions with an Expression parameter and no ExpressionContext parameter that hand that
+    same parameter to a context-taking formatter (or to another wrapper): format_expression, hang_expression, ..."""
+    wr = {}
+    changed = True
+    while changed:
+        changed = False
+        for f in prog.fns("stylua_lib"):
+            if f.kind == "Closure" or f.path in cf or f.path in wr:
+                continue
+            ei = [i for i in range(1, f.argc + 1) if f.locals[i] in (EXPR, "&" + EXPR)]
+            if not ei:
+                continue
+            for b, t in f.calls():
+                cal = callee(t)
+                if cal in cf or cal in wr:
+                    gei = cf[cal][1] if cal in cf else wr[cal][1]
+                    if cal == "formatters::expression::check_excess_parentheses":
+                        continue
+                    if len(t["args"]) >= gei and access_path(f, t["args"][gei - 1]) == (("arg", ei[0]), ()):
+                        wr[f.path] = (f, ei[0], None)
+                        changed = True
+                        break
+    return wr
+
+
+def _root_type(fn, ap):
+    root = ap[0]
+    if root[0] in ("arg", "local"):
+        return fn.local_ty(root[1])
+    if root[0] == "call":
+        t = fn.blocks[root[1]]["term"]
+        if not t["dst"].get("p"):
+            return fn.local_ty(t["dst"]["l"])
+    return ""
+
+
+def origin_role(fn, ap):
+    """role of an expression handed to a formatter by a caller outside the formatter family"""
+    ty = _root_type(fn, ap)
+    if "full_moon::ast::Prefix" in ty and ("v", "Expression") in ap[1]:
+        return "prefix"
+    return "whole"
+
+
 def collect_edges(prog, rep, cfg):
     cf = ctx_fns(prog)
     chk = "formatters::expression::check_excess_parentheses"
+    wr = wrapper_fns(prog, cf)
+    fam = dict(cf)
+    fam.update(wr)
     edges = []   # (caller path, callee path, role_spec, ctx_spec, ctxcons, kindcons, site, keeps_parens)
     ev = prog.variants(EXPR, "stylua_lib")
-    for path, (f, ei, ci) in cf.items():
+    for path, (f, ei, ci) in fam.items():
         if path == chk:
             continue
         for kind in ev:
@@ -273,54 +321,67 @@ def collect_edges(prog, rep, cfg):
             for st in res:
                 v0 = st.vals.get(0)
                 keeps = bool(v0 and v0[0] == "agg" and v0[2] == "Parentheses")
-                ctxcons = st.disc.get(f"arg:{ci}")
+                ctxcons = st.disc.get(f"arg:{ci}") if ci else None
                 for bi, cal, t in st.calls:
-                    if cal not in cf or cal == chk:
+                    if cal not in fam or cal == chk:
                         continue
-                    g, gei, gci = cf[cal]
+                    g, gei, gci = fam[cal]
                     ap = access_path(f, t["args"][gei - 1])
                     if ap[0] != ("arg", ei):
-                        rs = "fresh"
+                        rs = "fresh:" + origin_role(f, ap)
                     else:
                         rs = ROLE_STEPS.get(ap[1], "unknown")
                     if rs == "lhs":
                         rs = binop_role(f, ei, st)
                     if rs == "paren-inner":
                         rs = "paren-inner-kept" if keeps else "paren-inner-removed"
-                    cv = en.val_of(st, t["args"][gci - 1])
-                    if cv and cv[0] == "variant":
-                        cs = cv[2]
-                    elif access_path(f, t["args"][gci - 1]) == (("arg", ci), ()):
-                        cs = "param"
+                    if gci is None:
+                        cs = "none"
                     else:
-                        cs = "unknown"
+                        cv = en.val_of(st, t["args"][gci - 1])
+                        if cv and cv[0] == "variant":
+                            cs = cv[2]
+                        elif ci and access_path(f, t["args"][gci - 1]) == (("arg", ci), ()):
+                            cs = "param"
+                        else:
+                            cs = "unknown"
                     edges.append((path, cal, rs, cs, ctxcons, kind, f.loc(t["sp"]), keeps))
-    # external callers (seeds)
+    # external callers (seeds): every call from outside the family into it
     seeds = []
-    names = set(cf)
-    for g, bi, t in call_sites(prog, re.compile(r"^formatters::expression::"), "stylua_lib"):
-        cal = callee(t)
-        if cal not in cf or cal == chk or g.path in names:
+    names = set(fam)
+    for g in prog.fns("stylua_lib"):
+        if g.path in names or g.path.startswith("verify_ast") or g.path.startswith("<verify_ast"):
             continue
-        _, gei, gci = cf[cal]
-        # context value: enumerate caller paths cheaply
-        try:
-            en = Enumerator(g, max_paths=20000)
-            res = en.run()
-        except TooManyPaths:
-            rep.anchor(False, f"external caller {g.path} (too many paths)", cfg)
+        sites = [(bi, t) for bi, t in g.calls() if callee(t) in fam and callee(t) != chk]
+        if not sites:
             continue
-        vals = set()
-        for st in res:
-            for b2, c2, t2 in st.calls:
-                if b2 == bi:
-                    cv = en.val_of(st, t2["args"][gci - 1])
-                    vals.add(cv[2] if cv and cv[0] == "variant" else "unknown")
-        ap = access_path(g, t["args"][gei - 1])
-        role = "prefix" if ("Prefix" in g.locals[ap[0][1]] if ap[0][0] == "arg" else False) else "whole"
-        for v in vals:
-            seeds.append((g.path, cal, role, v, g.loc(t["sp"])))
-    return cf, edges, seeds
+        need_ctx = any(fam[callee(t)][2] is not None for _, t in sites)
+        ctxvals = {}
+        if need_ctx:
+            try:
+                en = Enumerator(g, max_paths=20000)
+                res = en.run()
+            except TooManyPaths:
+                rep.anchor(False, f"external caller {g.path} (too many paths)", cfg)
+                continue
+            for st in res:
+                for b2, c2, t2 in st.calls:
+                    if c2 in fam and fam[c2][2] is not None:
+                        cv = en.val_of(st, t2["args"][fam[c2][2] - 1])
+                        ctxvals.setdefault(b2, set()).add(cv[2] if cv and cv[0] == "variant" else "unknown")
+        for bi, t in sites:
+            cal = callee(t)
+            _, gei, gci = fam[cal]
+            ap = access_path(g, t["args"][gei - 1])
+            role = origin_role(g, ap)
+            if gci is None:
+                seeds.append((g.path, cal, role, "none", g.loc(t["sp"])))
+            else:
+                for v in ctxvals.get(bi, {"unknown"}):
+                    seeds.append((g.path, cal, role, v, g.loc(t["sp"])))
+    for g, bi, o in fn_refs(prog, re.compile(r"^formatters::expression::(format_expression|hang_expression)$"), "stylua_lib"):
+        seeds.append((g.path, o.get("rfn") or o["fn"], "whole", "none", g.loc()))
+    return fam, edges, seeds
 
 
 def compatible(ctxcons, c):
@@ -357,12 +418,13 @@ def fixpoint(cf, edges, seeds):
             elif rs == "paren-inner-kept":
                 nr = "inside-kept-parens"
                 nmp = True
-            elif rs == "fresh":
-                continue
+            elif rs.startswith("fresh:"):
+                nr = rs.split(":", 1)[1]
+                nmp = True
             else:
                 nr = rs
                 nmp = True
-            nc = c if cs == "param" else cs
+            nc = c if cs in ("param", "none") else cs
             k = (nr, nc, nmp)
             if k not in entry[cal]:
                 entry[cal][k] = entry[f][(r, c, mp)] + [f"{caller.split('::')[-1]}[{kind}] -> "
@@ -429,8 +491,9 @@ def rule_paren(ctx, prop, parts=("table", "oracle", "context-lost", "minus")):
                 continue
             cf, edges, seeds = ce
             rep.floor("call sites passing an ExpressionContext", len({(e[0], e[1], e[6]) for e in edges}), 12, cfg)
-            rep.floor("external entry points", len(seeds), 4, cfg)
-            unk = [e for e in edges if e[3] == "unknown" or e[2] == "unknown"]
+            rep.floor("external entry points", len(seeds), 40, cfg)
+            unk = [e for e in edges if e[3] == "unknown" or e[2] == "unknown"] + \
+                  [(sd[0], sd[1], sd[2], sd[3], None, None, sd[4]) for sd in seeds if sd[3] == "unknown"]
             for e in unk:
                 rep.anchor(False, f"call site {e[0]} -> {e[1]} at {e[6]}: role/context not resolvable ({e[2]}, {e[3]})", cfg)
             entry = fixpoint(cf, edges, seeds)
@@ -530,9 +593,33 @@ def _double_minus(prog, rep, cfg):
             if not minus_possible:
                 continue
             # the formatted operand's discriminant must have been examined
-            operand_tested = any(_is_expr_disc(prog, f, k) for k, v in st.disc.items())
+            opkeys = [k for k, v in st.disc.items() if _is_expr_disc(prog, f, k)]
+            operand_tested = bool(opkeys)
             if not (unop_tested and operand_tested):
                 bad_paths += 1
+                continue
+            # ... and when it does start with a minus (`-x` or `(-x)`), the operand handed to the new node must have
+            # been re-wrapped in parentheses
+            for k in opkeys:
+                lead_minus = (st.disc.get(k) == "UnaryOperator" and st.disc.get(k + ".UnaryOperator.unop") == "Minus") or \
+                             (st.disc.get(k) == "Parentheses" and st.disc.get(k + ".Parentheses.expression") == "UnaryOperator"
+                              and st.disc.get(k + ".Parentheses.expression.UnaryOperator.unop") == "Minus")
+                if not lead_minus:
+                    continue
+                kind, _, num = k.partition(":")
+                if kind == "local":
+                    cur = st.vals.get(int(num))
+                else:
+                    t = f.blocks[int(num)]["term"]
+                    cur = st.vals.get(t["dst"]["l"])
+                wrapped = bool(cur and cur[0] == "agg" and cur[2] == "Parentheses")
+                if not wrapped:
+                    # the wrapped value may live in a fresh local: look at what is boxed into the new node
+                    wrapped = any(v and v[0] == "agg" and v[1] == EXPR and v[2] == "Parentheses" and
+                                  v[3] > 0 and f.dominates(v[3], st.trail[-1]) and v[3] in st.trail
+                                  for v in st.vals.values())
+                if not wrapped:
+                    bad_paths += 1
         ok = bad_paths == 0 and total > 0
         rep.inst(f"{f.key} unary-minus-guard", {"fn": f.key, "paths_building_unary": total}, cfg, ok=ok)
         if not ok:
